@@ -56,10 +56,19 @@ def handler(case):
         n, i = case["n"], case["i"]
         b = Bus("B", n_customers=n)
         cats = []
+        shared = case.get("shared_cost")       # "object": one tariff object for all categories; "default": no cost function passed at all
+        tariff = CostFunction(A=F(case["cats"][0]["A"]), B=F(case["cats"][0]["B"])) if shared == "object" and case["cats"] else None
         for c in case["cats"]:
             p = [F(x) for x in c["p"]]; q = [F(x) for x in c["q"]]
-            b.add_load_data(pload_data=p, qload_data=q, cost_function=CostFunction(A=F(c["A"]), B=F(c["B"])))
-            cats.append((p, q, F(c["A"]), F(c["B"])))
+            if shared == "default":
+                b.add_load_data(pload_data=p, qload_data=q)
+                cats.append((p, q, F(1), F(0)))            # the documented default cost function
+            elif shared == "object":
+                b.add_load_data(pload_data=p, qload_data=q, cost_function=tariff)
+                cats.append((p, q, F(case["cats"][0]["A"]), F(case["cats"][0]["B"])))
+            else:
+                b.add_load_data(pload_data=p, qload_data=q, cost_function=CostFunction(A=F(c["A"]), B=F(c["B"])))
+                cats.append((p, q, F(c["A"]), F(c["B"])))
         b.set_load_and_cost(i)
         ops = ["prof load " + f"{n} {i} " + " ".join(f"{flist(p)} {flist(q)} {fr(A)} {fr(B)}" for p, q, A, B in cats)]
         impl = [f"{fr(b.pload)} {fr(b.qload)} {fr(F(b.cost) if isinstance(b.cost, float) else b.cost)}"]
@@ -271,6 +280,8 @@ def gen(rng, n):
         cats = [{"p": [str(rand_frac(rng, 0, 2)) for _ in range(L)], "q": [str(rand_frac(rng, 0, 1)) for _ in range(L)],
                  "A": str(rng.choice([F(0), F(1), F(2), rand_frac(rng, 0, 50)])), "B": str(rng.choice([F(0), F(1), rand_frac(rng, 0, 5)]))} for _ in range(ncat)]
         cases.append({"kind": "load", "n": rng.choice([0, 1, 3, 17, 500]), "i": rng.randrange(L), "cats": cats})
+        if len(cases) % 4 == 0 and ncat >= 2:
+            cases[-1]["shared_cost"] = rng.choice(["object", "default"])     # several categories under one tariff object / the default one
     for _ in range(n // 2):
         L = rng.randint(1, 6)
         cases.append({"kind": "prod", "pp": [str(rand_frac(rng, 0, 3)) for _ in range(L)], "qp": [str(rand_frac(rng, 0, 3)) for _ in range(L)],
